@@ -83,6 +83,17 @@ class SymS(_Base):
         """numeric spreadsheet cell with value i / 10**18"""
         return self._vt.SymFloat(self._poly(i))
 
+    def cell_exact(self, cell):
+        """exact value of a numeric cell, for oracle arithmetic"""
+        return self._vd.Decimal(("grid", cell.n, self._vt.SymFloat.GRID_K))
+
+    def tscell(self, us, off=0):
+        """timestamp cell: any string that parses to this tz-aware instant"""
+        return self._vt.SymTsStr(self.ts(us, off))
+
+    def dt(self, us, off=0):
+        return self.ts(us, off)
+
     def ex(self, d):
         """exact (non-quantising) view of a Decimal for oracle arithmetic"""
         if isinstance(d, int):
@@ -159,6 +170,15 @@ class ConS(_Base):
     def cell(self, i):
         return float(Fraction(i, 10**18))
 
+    def cell_exact(self, cell):
+        return Fraction(cell)
+
+    def tscell(self, us, off=0):
+        return ts_str(us, off)
+
+    def dt(self, us, off=0):
+        return (_E + timedelta(microseconds=us)).astimezone(timezone(timedelta(minutes=off_min(off))))
+
     def ex(self, d):
         return Fraction(d)
 
@@ -191,6 +211,10 @@ class ConS(_Base):
 
     def note(self, key, n=1):
         self.notes[key] = self.notes.get(key, 0) + n
+
+
+def off_min(off):
+    return int(off)
 
 
 def dec_str(i, k):
